@@ -10,17 +10,17 @@ SPEC = {
         "delivery through ProcessNewBlock only (compact-block reconstruction path not exercised here)",
     ],
     "stages": [
-        gen("vh_c04", "c04_merkle", 90000, 1500000, min_cases_quick=20000,
+        gen("vh_c04", "c04_merkle", 90000, 1500000, max_seconds_quick=600, min_cases_quick=5000,
             floors={"part-A-list": 0.2, "part-B-block": 0.2, "odd-level-above-leaves": 0.15, "list-mutated": 0.05, "repeats-but-not-mutated": 0.05, "dup-tail-variant": 0.1,
                     "same-header-malleation": 0.08, "variant:dup-tail": 0.02, "variant:witness-stripped": 0.01, "variant:witness-byte-changed": 0.005,
                     "variant:coinbase-nonce": 0.01, "variant:witness-added": 0.01, "verdict:64-byte-tx": 0.005, "checkblock-mutated": 0.1, "genuine-clean": 0.2},
             rule="leaf lists 1..300 with repeats + CVE-2012-2459 variants; blocks with witness commitment and one malleation; vs own SHA256d tree and reference mutation predicate"),
         enum("vh_c04", "c04_small", rule="exhaustive n=1..80: all adjacent repeats, aligned subtree repeats, CVE variants, merkle paths of every position"),
-        gen("vh_c04", "c04_mutated_delivery", 900, 16000, min_cases_quick=300,
+        gen("vh_c04", "c04_mutated_delivery", 900, 16000, max_seconds_quick=600, min_cases_quick=100,
             floors={"witness-level-variant": 0.3, "merkle-level-variant": 0.2, "variant:dup-tail": 0.05, "variant:witness-stripped": 0.03, "variant:coinbase-nonce": 0.05,
                     "header-announced-first": 0.1, "variants-redelivered-after": 0.2, "uncommitted-block": 0.05},
             rule="histories: 1-3 malleated variants with the genuine header delivered before the genuine block; verdict BLOCK_MUTATED, genuine hash never marked failed, genuine block accepted as tip"),
-        gen("vh_c04", "up_merkle", 40000, 600000, rule="upstream fuzz target merkle (asserts + sanitizers), supplementary"),
+        gen("vh_c04", "up_merkle", 40000, 600000, max_seconds_quick=600, rule="upstream fuzz target merkle (asserts + sanitizers), supplementary"),
     ],
 }
 
